@@ -20,6 +20,38 @@ type pngSpec struct {
 	Color  string `json:"color"`  // gray | gray_alpha | rgb | rgba | palette
 	Depth  int    `json:"depth"`  // 8 | 16 ; palette: 1, 2, 4, 8
 	Text   int    `json:"text"`   // 0 none, 1 tEXt, 2 zTXt, 3 iCCP, 4 all three
+	// Meta: header field grid file: gAMA, pHYs and tIME chunks with these values follow IHDR
+	Meta *pngMeta `json:"meta,omitempty"`
+}
+
+// pngMeta: gAMA (gamma x 100000), pHYs (pixels per unit x, y, unit specifier), tIME
+// (year, month, day, hour, minute, second; fq has no decoder for it: raw data).
+type pngMeta struct {
+	Gamma uint32  `json:"gamma"`
+	PX    uint32  `json:"px"`
+	PY    uint32  `json:"py"`
+	Unit  byte    `json:"unit"`
+	Time  [7]byte `json:"time"`
+}
+
+func pngMetaGrid(wide bool) []pngMeta {
+	var l []pngMeta
+	vals := append([]uint32{45455, 100000, 2835}, u32Grid...)
+	if wide {
+		vals = append(vals, walk32()...)
+	}
+	tm := [7]byte{0x07, 0xe8, 2, 29, 23, 59, 60}
+	for i, v := range vals {
+		l = append(l, pngMeta{Gamma: v, PX: vals[(i+1)%len(vals)], PY: vals[(i+2)%len(vals)], Unit: u8Grid[i%len(u8Grid)], Time: tm})
+	}
+	if wide {
+		for _, a := range vals {
+			for _, b := range vals {
+				l = append(l, pngMeta{Gamma: 45455, PX: a, PY: b, Unit: 1, Time: tm})
+			}
+		}
+	}
+	return l
 }
 
 var pngSizes = [][2]int{{1, 1}, {3, 2}, {17, 5}}
@@ -44,6 +76,7 @@ type pngExp struct {
 	ZKeyword, ZText        string
 	ProfileName            string
 	Profile                []byte
+	Meta                   *pngMeta
 }
 
 func pngChunkBytes(typ string, data []byte) []byte {
@@ -225,6 +258,14 @@ func pngBuild(spec any) *genFile {
 		exp.ProfileName, exp.Profile = "prof", minimalICC()
 		extra = append(extra, pngChunkBytes("iCCP", append(append([]byte(exp.ProfileName), 0, 0), zlibBytes(exp.Profile)...))...)
 	}
+	if mt := sp.Meta; mt != nil {
+		be := binary.BigEndian
+		var meta []byte
+		meta = append(meta, pngChunkBytes("gAMA", be.AppendUint32(nil, mt.Gamma))...)
+		meta = append(meta, pngChunkBytes("pHYs", append(be.AppendUint32(be.AppendUint32(nil, mt.PX), mt.PY), mt.Unit))...)
+		meta = append(meta, pngChunkBytes("tIME", mt.Time[:])...)
+		extra = append(meta, extra...)
+	}
 	file = append(append(append([]byte{}, file[:33]...), extra...), file[33:]...)
 	// own chunk walker
 	for off := 8; off+12 <= len(file); {
@@ -234,6 +275,12 @@ func pngBuild(spec any) *genFile {
 	}
 	f := &genFile{Data: file, Exp: exp, Nontriv: true}
 	f.Desc = fmt.Sprintf("writer=%s %dx%d %s depth=%d text=%d", sp.Writer, w, h, sp.Color, sp.Depth, sp.Text)
+	if mt := sp.Meta; mt != nil {
+		exp.Meta = mt
+		f.Desc += fmt.Sprintf(" meta(gamma=%d phys=%d,%d,%d)", mt.Gamma, mt.PX, mt.PY, mt.Unit)
+		// header field grid files take no part in the fault enumeration
+		return f
+	}
 	for i, c := range exp.Chunks {
 		n := fmt.Sprintf("chunk%d.%s", i, c.Type)
 		f.Regions = append(f.Regions,
@@ -252,6 +299,10 @@ func pngBuild(spec any) *genFile {
 }
 
 func pngEnum(r *core.Run, emit func(any)) {
+	for _, mt := range pngMetaGrid(r.Thorough()) {
+		mt := mt
+		emit(&pngSpec{Writer: "hand", Size: 0, Color: "gray", Depth: 8, Meta: &mt})
+	}
 	for _, w := range []string{"std", "hand"} {
 		for size := range pngSizes {
 			for _, col := range []string{"gray", "gray_alpha", "rgb", "rgba", "palette"} {
@@ -279,7 +330,7 @@ def obs: {
     palette: (.palette | if type == "null" then null else [.[] | [(.r|act),(.g|act),(.b|act)]] end),
     alphas: (.alphas | if type == "null" then null else [.[] | act] end),
     keyword: (.keyword|act), text: (.text|act), cm: (if (.type|act) == "IHDR" then null else (.compression_method|act) end), comp: (.compressed|tb),
-    profile_name: (.profile_name|act),
+    profile_name: (.profile_name|act), gamma: (.value|act), phys: [(.x_pixels_per_unit|act), (.y_pixels_per_unit|act), (.unit|act)],
     unc: (.uncompressed | if type == "null" then null else {fmt: (try format catch null), bytes: tb, text: (try (.text|act) catch null)} end)}]
 };`
 
@@ -350,6 +401,19 @@ func pngCheck(f *genFile, o map[string]any, probe bool) []mm {
 			c.bytes("IDAT.data", g["data"], e.Data)
 			b, _ := gb(g["data"])
 			idat = append(idat, b...)
+		case "gAMA":
+			c.num("gAMA.value", g["gamma"], int64(exp.Meta.Gamma))
+		case "pHYs":
+			ph, _ := g["phys"].([]any)
+			if len(ph) != 3 {
+				c.add("pHYs", "fields missing")
+				break
+			}
+			c.num("pHYs.x_pixels_per_unit", ph[0], int64(exp.Meta.PX))
+			c.num("pHYs.y_pixels_per_unit", ph[1], int64(exp.Meta.PY))
+			c.num("pHYs.unit", ph[2], int64(exp.Meta.Unit))
+		case "tIME":
+			c.bytes("tIME.data", g["data"], exp.Meta.Time[:])
 		case "tEXt":
 			c.str("tEXt.keyword", g["keyword"], exp.Keyword)
 			c.str("tEXt.text", g["text"], exp.Text)
